@@ -94,7 +94,59 @@ func libraryFiles(dir string) []baseFile {
 	if b := compoundVLenFile(filepath.Join(dir, "lib-compound-vlen.h5")); b != nil {
 		out = append(out, baseFile{"lib-compound-vlen", b})
 	}
+	if b := tailDataFile(filepath.Join(dir, "lib-tail3d.h5")); b != nil {
+		out = append(out, baseFile{"lib-tail3d", b})
+	}
 	return out
+}
+
+// tailDataFile: contiguous datasets of rank 3 and 4 whose raw data is the last thing in the file, all metadata before it
+// (the arrangement of files written by the C library; the library's own writer puts each object header behind its data,
+// so a cut inside the data also removes a header and nothing is read at all). Written with the library, then the raw
+// data of each dataset is copied to the end and the address in its layout message repointed.
+func tailDataFile(p string) []byte {
+	defer os.Remove(p)
+	ex, err := hist.NewExec(p, 2)
+	if err != nil {
+		return nil
+	}
+	for _, op := range []hist.Op{
+		{K: "dataset", Path: "/cube", D: &hist.DSpec{Type: "f64", Dims: []uint64{4, 3, 6}}}, {K: "write", Path: "/cube", Seed: 11, Mode: 1},
+		{K: "dataset", Path: "/hyper", D: &hist.DSpec{Type: "i32", Dims: []uint64{3, 2, 4, 5}}}, {K: "write", Path: "/hyper", Seed: 12, Mode: 1},
+	} {
+		ex.Apply(op)
+	}
+	if ex.Close() != nil {
+		return nil
+	}
+	data, err := os.ReadFile(p)
+	if err != nil {
+		return nil
+	}
+	f, _ := indep.Decode(data, indep.TolerateAll())
+	if f == nil {
+		return nil
+	}
+	for _, spec := range []struct {
+		path string
+		size uint64
+	}{{"/hyper", 3 * 2 * 4 * 5 * 4}, {"/cube", 4 * 3 * 6 * 8}} {
+		o := f.Objects[f.Paths[spec.path]]
+		if o == nil || o.DataAddr == indep.UndefAddr || o.DataAddr+spec.size > uint64(len(data)) {
+			return nil
+		}
+		// version 3 contiguous layout: address, then size
+		pat := make([]byte, 16)
+		binary.LittleEndian.PutUint64(pat, o.DataAddr)
+		binary.LittleEndian.PutUint64(pat[8:], spec.size)
+		at := bytes.Index(data, pat)
+		if at < 0 || bytes.Index(data[at+1:], pat) >= 0 {
+			return nil
+		}
+		binary.LittleEndian.PutUint64(data[at:], uint64(len(data)))
+		data = append(data, data[o.DataAddr:o.DataAddr+spec.size]...)
+	}
+	return data
 }
 
 // compoundVLenFile: a compound dataset {int32 id; variable-length string name} whose records refer to the global heap
@@ -261,6 +313,24 @@ func refines(intact, tr *obs.File) []hist.Problem {
 		if dt.Slice != "" && dt.SliceErr == "" && !(di.SliceErr == "" && dt.Slice == di.Slice) {
 			add("slice-differs", p, "ReadSlice/ReadHyperslab returned values that differ from the intact file's")
 		}
+		for i, st := range dt.Sels {
+			if st.Err != "" || i >= len(di.Sels) || !reflect.DeepEqual(st.Sel, di.Sels[i].Sel) {
+				continue // an error is fine; another selection means other metadata, reported above
+			}
+			if si := di.Sels[i]; si.Err != "" || !reflect.DeepEqual(st.Bits, si.Bits) {
+				add("hyperslab-differs", p, "ReadHyperslab(start %v count %v stride %v block %v) returned values that differ from the intact file's (intact error: %q)", st.Sel.Start, st.Sel.Count, st.Sel.Stride, st.Sel.Block, si.Err)
+			}
+		}
+		if dt.ChunkIter != nil && di.ChunkIter != nil && dt.ChunkIter.Err == "" {
+			for i, ct := range dt.ChunkIter.Chunks {
+				if ct.Err != "" || i >= len(di.ChunkIter.Chunks) || !reflect.DeepEqual(ct.Sel, di.ChunkIter.Chunks[i].Sel) {
+					continue
+				}
+				if ci := di.ChunkIter.Chunks[i]; ci.Err != "" || !reflect.DeepEqual(ct.Bits, ci.Bits) {
+					add("chunkiter-differs", p, "ChunkIterator chunk %d returned values that differ from the intact file's", i)
+				}
+			}
+		}
 		if dt.AttrsErr == "" && di.AttrsErr == "" {
 			ps = append(ps, attrRefines(p, di.Attrs, dt.Attrs)...)
 		}
@@ -295,13 +365,18 @@ func attrRefines(path string, intact, tr []obs.Attr) []hist.Problem {
 
 var intactCache sync.Map
 
+// truncOpts: what a truncated file is asked for. Besides the full reads and the two fixed partial reads, four generated
+// hyperslab selections per dataset (blocks of 1..3 elements, strides up to block+3; a pure function of path, address and
+// shape, so the intact and the truncated file are asked for the same elements).
+var truncOpts = obs.Options{Slices: true, SelSeeds: []uint64{0xC17A, 0xC17B, 0xC17C, 0xC17D}}
+
 func intactObs(name string, data []byte) *obs.File {
 	if v, ok := intactCache.Load(name); ok {
 		return v.(*obs.File)
 	}
 	p := filepath.Join(vt.GetEnv().Scratch, "intact.h5")
 	_ = os.WriteFile(p, data, 0o644)
-	o := obs.Read(p, obs.Options{Slices: true})
+	o := obs.Read(p, truncOpts)
 	os.Remove(p)
 	intactCache.Store(name, o)
 	return o
@@ -326,7 +401,7 @@ func truncVerdict(name string, data []byte, intact *obs.File, l int) vt.Verdict 
 		return vt.Skipped("cannot write scratch file")
 	}
 	defer os.Remove(p)
-	tr := obs.Read(p, obs.Options{Slices: true})
+	tr := obs.Read(p, truncOpts)
 	ps := refines(intact, tr)
 	var known *vt.Verdict
 	for _, pr := range ps {
@@ -450,7 +525,7 @@ func runGenTrunc(c GenTruncCase) vt.Verdict {
 	if err != nil || len(data) < 16 {
 		return vt.Skipped("no file")
 	}
-	intact := obs.Read(p, obs.Options{Slices: true})
+	intact := obs.Read(p, truncOpts)
 	if intact.OpenErr != "" || len(intact.Panics) > 0 {
 		return vt.Skipped("the intact file is not readable (other properties' business)")
 	}
